@@ -320,11 +320,13 @@ def fingerprint(obj, w):
     if kd in ("joint", "lik") and ok_names and len(names) >= 2 and all(n in w.vals for n in names):
         def probe():
             _c = obj(**{n: GR.copy_val(w.vals[n]) for n in names[1:]})
-            return (type(_c).__name__, tuple(_c.get_parameter_names()), float(np.asarray(_c.logd(GR.copy_val(w.vals[names[0]]))).ravel()[0]))
+            _g = guard(lambda: _c.gradient(GR.copy_val(w.vals[names[0]])))
+            return (type(_c).__name__, tuple(_c.get_parameter_names()), float(np.asarray(_c.logd(GR.copy_val(w.vals[names[0]]))).ravel()[0]), _g)
         r = guard(probe)
-        if len(r) == 3:
+        if len(r) == 4:
             fp.append(("cond_probe_class", r[0] + str(r[1])))
             fp.append(("cond_probe_logd", num(r[2])))
+            fp.append(("cond_probe_gradient", num(r[3])))
         else:
             fp.append(("cond_probe_class", r))
     return fp
@@ -382,6 +384,8 @@ def ops_for(w, i):
         if isinstance(nm, str) and nm in w.vals:
             ops.append(("to_likelihood", i, None))
     ops.append(("call0", i, None))
+    if w.role[i] == "pool" and (hasattr(obj, "enable_FD") or hasattr(obj, "likelihood")):
+        ops.append(("enable_fd", i, None))       # a setting changed ON A DERIVED OBJECT must not reach its relatives
     for S in cond_subsets(known):
         ops.append(("cond", i, S))
     if isinstance(obj, (cuqi.distribution.Posterior, cuqi.distribution.MultipleLikelihoodPosterior)) and len(names) == 1 and len(known) == 1:
@@ -435,6 +439,12 @@ def do_op(w, op):
             return "to_likelihood", obj.to_likelihood(GR.copy_val(v[obj.name]))
         if name == "call0":
             return "call0", obj()
+        if name == "enable_fd":
+            tgt = obj.likelihood if hasattr(obj, "likelihood") and hasattr(obj.likelihood, "enable_FD") else obj
+            tgt.enable_FD(epsilon=1e-3)        # coarse step: the switch is visible in the gradient entry
+            if hasattr(obj, "enable_FD"):
+                obj.enable_FD(epsilon=1e-3)
+            return "enable_fd", None
         if name == "cond":
             return "cond", obj(**{n: GR.copy_val(v[n]) for n in arg})
         if name == "apply":
@@ -552,6 +562,9 @@ class Explorer:
         if outcome.startswith("refused"):
             self.res.refused += 1
         self.res.outcomes.add(outcome)
+        if op[0] == "enable_fd":
+            # the target's own behaviour legitimately changes: re-baseline it, everything else must be unchanged
+            w.fp[op[1]] = fingerprint(w.objs[op[1]], w)
         bad = self.check_all(w, n0)
         nameprob = None
         if _new is not None:
